@@ -13,6 +13,7 @@ ANCHORS = ['pycaption.scc:SCCReader._flush_implicit_buffers',
            'pycaption.scc:SCCReader._translate_command', 'pycaption.scc:SCCReader._roll_up',
            'pycaption.scc.specialized_collections:CaptionCreator.correct_last_timing',
            'pycaption.scc.specialized_collections:TimingCorrectingCaptionList.extend']
+THOROUGH_SCALE = 3        # random budgets of the thorough tier are multiplied by this
 REQUIRE = {'streams_roll': 50, 'streams_paint': 50, 'mode_switches': 20, 'rows_checked': 500,
            'streams_starting_at_zero': 20, 'depth_2': 5, 'depth_3': 5, 'depth_4': 5, 'chars_conserved': 5000,
            'rows_with_special_or_extended': 20, 'abandoned_pop_on_loads': 10, 'streams_returning_to_an_earlier_mode': 50, 'end_equals_next_start_checked': 500}
